@@ -282,8 +282,10 @@ def mpc_pow_int(z, n, prec, rnd=round_fast):
     if bsign: bman = -bman
     de = aexp - bexp
     abs_de = abs(de)
+    # Upper bound for the size of the exact power (up to twice too large,
+    # since the modulus can be smaller than the larger component suggests)
     exact_size = n*(abs_de + max(abc, bbc))
-    if exact_size < 10000:
+    if exact_size < 20000:
         if de > 0:
             aman <<= de
             aexp = bexp
@@ -294,7 +296,9 @@ def mpc_pow_int(z, n, prec, rnd=round_fast):
         re = from_man_exp(re, int(n*aexp), prec, rnd)
         im = from_man_exp(im, int(n*bexp), prec, rnd)
         return re, im
-    return mpc_exp(mpc_mul_int(mpc_log(z, prec+10), n, prec+10), prec, rnd)
+    # The error of log(z) is amplified by n*|log(z)| in exp(n*log(z))
+    wp = prec + 10 + bitcount(n) + bitcount(abs(aexp+abc) + abs(bexp+bbc) + 3)
+    return mpc_exp(mpc_mul_int(mpc_log(z, wp), n, wp), prec, rnd)
 
 def mpc_sqrt(z, prec, rnd=round_fast):
     """Complex square root (principal branch).
